@@ -278,7 +278,7 @@ pub fn main(ctx: &Ctx, c09: bool) -> i32 {
             _ => replay_one::<crate::uni::Kb4>(ctx, &body, c09),
         };
     }
-    let runs: u64 = ctx.tier.pick(400, 8000);
+    let runs: u64 = ctx.tier.pick(2000, 40000);
     let res = crate::core::pool::run_jobs(runs, |idx| {
         let mut out = RunOut::default();
         if idx % 2 == 0 {
